@@ -221,6 +221,121 @@ class Expected:
             if depth <= 6:
                 self.block(m["body"], {"file": f, "macro": s["name"], "env": e["env"], "exp": e["id"], "routine": cx["routine"]})
 
+    # ---- census: how many entries (emitted ops or not) each node registers at its own start
+    def census(self) -> dict[tuple, list]:
+        """{("d", (line, col)) | ("m", macro, (line, col)): [lo, hi, label]}: number of source map entries (keys of `map` resp.
+        `macros.map`, whether the op is emitted or was dropped later) that must sit at the start of each node.
+        Read from the registration calls of the handlers (one `add_opcode` per generated op at the handler's ctx.start):
+        a plain op / assignment / context op / header op / case op / control statement / jump / call registers exactly one
+        entry at its own start; a loop statement exactly one (its entry or back jump); a switch with cases exactly one (the
+        default jump); an if statement its no-else jump plus possibly the jump that ends its first branch; an elseif branch
+        possibly one.  An operation used as condition or switch header registers a second entry (the operation itself) in
+        the compiled file; in a macro that op is not part of the blueprint.  Inside macros a jump that is alone in an
+        if / elseif / case body may be folded into the header op and then is not part of the blueprint.
+        Label jumps carry no content, so this census is what ties every `continue` / `break` / `break_loop` / `jump` / `call`
+        statement and every loop / if / switch to its own entries."""
+        exp: dict[tuple, list] = {}
+        nexp = Counter(e["macro"] for e in self.exp)
+
+        def add(f: str, macro: str | None, poskey: tuple, lo: int, hi: int, label: str) -> None:
+            p = self.pos[f].get(poskey)
+            if p is None or "start" not in p:
+                return
+            mult = 1 if macro is None else nexp[macro]
+            k = ("d", tuple(p["start"])) if macro is None else ("m", macro, tuple(p["start"]))
+            cur = exp.setdefault(k, [0, 0, []])
+            cur[0] += lo * mult
+            cur[1] += hi * mult
+            cur[2].append(label)
+
+        def hdr(f: str, macro: str | None, h: dict) -> None:
+            n = 2 if (h["h"] == "operation" and macro is None) else 1
+            add(f, macro, ("hdr", id(h)), n, n, "hdr:" + h["h"])
+
+        def simple(f: str, macro: str | None, s_: dict, alone_foldable: bool) -> None:
+            t = s_["t"]
+            key = ("stmt", id(s_))
+            if t == "op":
+                n = 2 if s_.get("ctx") else 1
+                add(f, macro, key, n, n, "op")
+            elif t == "assign":
+                add(f, macro, key, 1, 1, "assign")
+            elif t == "ctrl":
+                k = s_["k"]
+                if k in ("break", "continue", "break_loop"):
+                    add(f, macro, key, 0 if (macro is not None and alone_foldable) else 1, 1, k)
+                else:
+                    add(f, macro, key, 1, 1, k)
+            elif t == "jump":
+                add(f, macro, key, 0 if (macro is not None and alone_foldable) else 1, 1, "jump")
+            elif t == "call":
+                add(f, macro, key, 1, 1, "call")
+
+        def block(f: str, macro: str | None, stmts: list[dict], foldable: bool) -> None:
+            for s_ in stmts:
+                stmt(f, macro, s_, foldable and len(stmts) == 1)
+
+        def stmt(f: str, macro: str | None, s_: dict, alone_foldable: bool) -> None:
+            t = s_["t"]
+            key = ("stmt", id(s_))
+            if t in ("op", "assign", "ctrl", "jump", "call", "label"):
+                simple(f, macro, s_, alone_foldable)
+            elif t == "with":
+                add(f, macro, key, 1, 1, "with")
+                simple(f, macro, s_["stmt"], False)
+            elif t == "if":
+                lo = 0 if s_.get("else") is not None else 1
+                add(f, macro, key, lo, lo + 1, "if")
+                for bi, b in enumerate(s_["branches"]):
+                    if bi:
+                        add(f, macro, ("branch", id(b)), 0, 1, "elseif")
+                    for h in b["headers"]:
+                        hdr(f, macro, h)
+                    block(f, macro, b["body"], True)
+                if s_.get("else") is not None:
+                    block(f, macro, s_["else"], False)
+            elif t == "switch":
+                sh = s_["header"]
+                n = 2 if (sh["s"] == "operation" and macro is None) else 1
+                add(f, macro, ("swhdr", id(sh)), n, n, "swhdr:" + sh["s"])
+                one = 1 if s_["cases"] else 0
+                add(f, macro, key, one, one, "switch")
+                for c in s_["cases"]:
+                    if not c.get("default"):
+                        add(f, macro, ("casehdr", id(c["header"])), 1, 1, "casehdr")
+                    add(f, macro, ("case", id(c)), 0, 0, "case")
+                    block(f, macro, c["body"], True)
+            elif t == "msgswitch":
+                add(f, macro, key, 1, 1, "msgswitch")
+                for c in s_["cases"]:
+                    add(f, macro, ("case", id(c)), 1, 1, "msgcase")
+            elif t == "forever":
+                add(f, macro, key, 1, 1, "forever")
+                block(f, macro, s_["body"], False)
+            elif t == "while":
+                add(f, macro, key, 1, 1, "while")
+                hdr(f, macro, s_["header"])
+                block(f, macro, s_["body"], False)
+            elif t == "for":
+                add(f, macro, key, 1, 1, "for")
+                simple(f, macro, s_["init"], False)
+                hdr(f, macro, s_["header"])
+                simple(f, macro, s_["inc"], False)
+                block(f, macro, s_["body"], False)
+            elif t == "macrocall":
+                add(f, macro, key, 0, 0, "macrocall")
+
+        main = self.p["main"]
+        for r in self.p["files"][main]["routines"]:
+            add(main, None, ("routine", id(r)), 0, 1, "routine")
+            if r["body"] is not None:
+                block(main, None, r["body"], False)
+        for f, ast in self.p["files"].items():
+            for m in ast["macros"]:
+                if self.macros.get(m["name"], (None, None))[1] is m:
+                    block(f, m["name"], m["body"], False)
+        return exp
+
     def anc_of(self, e: int | None) -> list[int]:
         out = []
         while e is not None:
@@ -434,6 +549,38 @@ def check_project(project: dict, pos: dict, res: dict, stats: Counter | None = N
     for X, rs in rets.items():
         if len(rs) > 1:
             bad.append(("return_addr_differs_within_expansion", f"expansion of {ex.exp[X]['macro']}: return addresses {sorted(rs, key=str)}"))
+
+    # (c') census: every node has the entries it registers, at its own start — this is what pins the label jumps
+    # (continue / break / break_loop / jump / call statements, loop, if and switch jumps) to their statements
+    want_census = ex.census()
+    got_census: Counter = Counter()
+    for v in dmap.values():
+        got_census[("d", (v[0], v[1]))] += 1
+    for v in mmap.values():
+        got_census[("m", v[1], (v[2], v[3]))] += 1
+    macro_file = {n: fm[0] for n, fm in ex.macros.items()}
+    nexp_by_macro = Counter(e["macro"] for e in ex.exp)
+    for key in sorted(set(want_census) | set(got_census), key=str):
+        n = got_census.get(key, 0)
+        if key in want_census:
+            lo, hi, labels = want_census[key]
+            if not lo <= n <= hi:
+                lab = "+".join(sorted(set(labels)))
+                where = f"{key[-1]} of the compiled file" if key[0] == "d" else f"{key[-1]} of macro {key[1]}"
+                bad.append((f"entry_count_at:{lab}", f"{n} source map entr{'y' if n == 1 else 'ies'} at {where} (start of: {lab}); the node(s) there register "
+                            + (f"exactly {lo}" if lo == hi else f"{lo} to {hi}") + " (emitted or dropped ops)"))
+            else:
+                st["census_positions_ok"] += 1
+        else:
+            # not the start of any node: only the `else` keyword (jump ending the else block) is possible, once per expansion
+            f_ = main if key[0] == "d" else macro_file.get(key[1])
+            ls = lines.get(f_) if f_ else None
+            l_, c_ = key[-1]
+            mult = 1 if key[0] == "d" else max(1, nexp_by_macro.get(key[1], 0))
+            if ls is None:
+                continue
+            if not (0 <= l_ < len(ls) and ls[l_][c_:c_ + 4] == "else" and n <= mult):
+                bad.append(("entry_at_no_node_start", f"{n} source map entr{'y' if n == 1 else 'ies'} at {key[-1]} of {f_}, which is not the start of a statement, header, case, else or routine"))
 
     # (d) files named by macro entries = imported files that contributed ops
     named = {mmap[k][0] for k in emitted if k in mmap and mmap[k][0] is not None}
